@@ -242,6 +242,13 @@ type SOverride struct {
 	X string // declared after the embedded struct: overrides the flattened X
 }
 
+type SPtrOmit struct {
+	PI  *int    `clover:"pi,omitempty"`
+	PB  *bool   `clover:",omitempty"`
+	PS  *string `clover:"ps,omitempty"`
+	PPI **int   `clover:"ppi,omitempty"`
+}
+
 type SBad struct {
 	A  int
 	Ch chan int
@@ -290,7 +297,51 @@ func (g *goGen) structValue(depth int) (interface{}, V) {
 	s := strPool[g.r.Intn(len(strPool))]
 	var v interface{}
 	var a V
-	switch g.r.Intn(12) {
+	switch g.r.Intn(13) {
+	case 12:
+		// omitempty on pointers: only a nil pointer is empty, a pointer to a zero value is kept
+		var pi *int
+		var pb *bool
+		var ps *string
+		var ppi **int
+		piA, pbA, psA, ppiA := V{"nilptr"}, V{"nilptr"}, V{"nilptr"}, V{"nilptr"}
+		zero := g.r.Intn(2) == 0
+		if g.r.Intn(3) > 0 {
+			n := int(iv)
+			o := ord
+			if zero {
+				for zo, e := range g.u.nums {
+					if e.i != nil && *e.i == 0 {
+						n, o = 0, zo
+					}
+				}
+			}
+			pi = &n
+			piA = V{"ptr", V{"int", o, 0, zeroFlag(int64(n))}}
+			pp := &n
+			ppi = &pp
+			ppiA = V{"ptr", V{"ptr", V{"int", o, 0, zeroFlag(int64(n))}}}
+		}
+		if g.r.Intn(3) > 0 {
+			bv := !zero
+			pb = &bv
+			pbA = V{"ptr", V{"bool", map[bool]int{false: 0, true: 1}[bv]}}
+		}
+		if g.r.Intn(3) > 0 {
+			sv := s
+			if zero {
+				sv = ""
+			}
+			ps = &sv
+			psA = V{"ptr", V{"string", B(sv)}}
+		}
+		v = SPtrOmit{PI: pi, PB: pb, PS: ps, PPI: ppi}
+		a = V{"struct", []interface{}{
+			fld("PI", "pi", 1, 0, 1, piA),
+			fld("PB", "", 1, 0, 1, pbA),
+			fld("PS", "ps", 1, 0, 1, psA),
+			fld("PPI", "ppi", 1, 0, 1, ppiA),
+		}}
 	case 8:
 		// unnamed struct types: distinct types that share package path and (empty) name
 		v = struct {
